@@ -542,7 +542,11 @@ impl Extensions {
         self.add_package(
             package!(response, request, _host, _, move |csp: Arc<Csp>| {
                 let some_nonce = response.headers().contains_key("csp-nonce");
-                if let Some(rule) = csp.get(request.uri().path()) {
+                // Files are read from the percent-decoded path, where repeated `/` don't matter
+                // (`/%75ser-content/x.html` and `/user-content//x.html` read `user-content/x.html`):
+                // the rule of the path the file is read from applies, however the request spelled it.
+                let path = Cors::resolved_path(request.uri().path());
+                if let Some(rule) = csp.get(&path) {
                     let nonce = response.headers().get("csp-nonce");
                     let header = if some_nonce {
                         rule.0.to_header_nonce(nonce)
